@@ -10,6 +10,7 @@ import (
 	"cosmossdk.io/math"
 	storetypes "cosmossdk.io/store/types"
 
+	"github.com/cosmos/cosmos-sdk/codec/address"
 	sdked25519 "github.com/cosmos/cosmos-sdk/crypto/keys/ed25519"
 	sdk "github.com/cosmos/cosmos-sdk/types"
 	stakingtypes "github.com/cosmos/cosmos-sdk/x/staking/types"
@@ -306,11 +307,14 @@ func newVEnv(nVals int) *vEnv {
 	st := newVStaking(nVals, "")
 	sl := newVSlashing(st, "")
 	k := Keeper{
-		authority:      vAuthority,
-		storeKey:       key,
-		cdc:            vh.NewCodec(),
-		stakingKeeper:  st,
-		slashingKeeper: sl,
+		authority:             vAuthority,
+		storeKey:              key,
+		cdc:                   vh.NewCodec(),
+		stakingKeeper:         st,
+		slashingKeeper:        sl,
+		validatorAddressCodec: address.NewBech32Codec("cosmosvaloper"),
+		consensusAddressCodec: address.NewBech32Codec("cosmosvalcons"),
+		feeCollectorName:      "fee_collector",
 	}
 	return &vEnv{ctx: ctx, k: k, st: st, sl: sl, key: key}
 }
